@@ -115,7 +115,7 @@ func (o *Object) Call(r *Rec, paradigm string) {
 
 // Kinds lists the object kinds, simplest first. all adds the kinds that are too expensive for the quick tier.
 func Kinds(all bool) []string {
-	k := []string{"pregel-state-branch", "workflow-map", "nested", "react", "react-rd", "react-shared-input", "host", "dag-fanout"}
+	k := []string{"pregel-state-branch", "workflow-map", "nested", "nested-steplimit", "react", "react-rd", "react-shared-input", "host", "dag-fanout"}
 	if all {
 		k = append(k, "workflow-fanin")
 	}
@@ -133,6 +133,9 @@ func Describe(kind string) (paradigms []string, par bool) {
 	return valParadigms, false
 }
 
+// Fails tells whether every run of the kind is expected to fail (the solo run included).
+func Fails(kind string) bool { return kind == "nested-steplimit" }
+
 // Build constructs and compiles a fresh object of the given kind.
 func Build(kind string) (*Object, error) {
 	switch kind {
@@ -146,6 +149,8 @@ func Build(kind string) (*Object, error) {
 		return buildWorkflow(true)
 	case "nested":
 		return buildNested()
+	case "nested-steplimit":
+		return buildNestedStepLimit()
 	case "react":
 		return buildReact(false)
 	case "react-rd":
